@@ -49,16 +49,28 @@ COSMO_BOX = {
 }
 
 
-def gen_config(rng, force=False):
-    """force: the configuration with the most sampled blocks (log-space scatters, two anisotropy scatters)"""
+def gen_config(rng, force=False, mixed=False):
+    """force: the configuration with the most sampled blocks (log-space scatters, two anisotropy scatters);
+    mixed: a sample in which a kinematic lens WITHOUT a slope axis precedes lenses that sample their own slope"""
     cosmology = rng.choice(["FLCDM", "FwCDM", "w0waCDM", "oLCDM", "oLCDM"])
     npop = rng.choice([0, 0, 1])
     lenses = []
-    for _ in range(rng.choice([1, 2, 3])):
+    # per-lens power-law slopes (gamma_pl in the scaling lists: `gamma_pl_<i>` enter the vector, one per slope lens,
+    # in the order of the lens list — also behind lenses whose scaling list has no slope)
+    keep_slopes = mixed or rng.random() < 0.4
+    want = ["plain", "slope", "slope", "any"][:rng.choice([2, 3, 4])] if mixed else None
+    for slot in range(len(want) if mixed else rng.choice([1, 2, 3]) + (1 if keep_slopes else 0)):
         kw, lt, data = c07.gen_lens(rng, npop, {})
+        for _ in range(200):
+            if not mixed or want[slot] == "any":
+                break
+            sl = kw.get("kin_scaling_param_list")
+            if (want[slot] == "plain" and sl == ["a_ani"]) or (want[slot] == "slope" and sl and "gamma_pl" in sl):
+                break
+            kw, lt, data = c07.gen_lens(rng, npop, {})
         kw.pop("lambda_mst_distribution", None)
         kw.pop("anisotropy_sampling", None)
-        if kw.get("kin_scaling_param_list") not in (None, ["a_ani"]):
+        if kw.get("kin_scaling_param_list") not in (None, ["a_ani"]) and not keep_slopes:
             for k in ("kin_scaling_param_list", "j_kin_scaling_param_axes", "j_kin_scaling_grid_list"):
                 kw.pop(k, None)
         if "j_kin_scaling_param_axes" in kw and rng.random() < 0.3:
@@ -88,6 +100,9 @@ def gen_config(rng, force=False):
         if rng.random() < 0.5:
             model["lambda_mst_distribution"] = "GAUSSIAN"
             lo_l["lambda_mst_sigma"], up_l["lambda_mst_sigma"] = 0.0, 0.5
+    nslope = sum(1 for kw, _, _ in lenses if "gamma_pl" in (kw.get("kin_scaling_param_list") or []))
+    if nslope:
+        lo_l["gamma_pl_list"], up_l["gamma_pl_list"] = [1.5] * nslope, [2.5] * nslope     # = the grid range of c07.gen_lens
     if rng.random() < 0.3:
         model["alpha_lambda_sampling"] = True
         lo_l["alpha_lambda"], up_l["alpha_lambda"] = -1.0, 1.0
@@ -148,6 +163,11 @@ def box_by_name(cfg, names):
             if nm in lod:
                 found = (lod[nm], (b.get("kwargs_upper_" + blk) or {})[nm])
                 break
+        if found is None:
+            m = re.match(r"^gamma_pl_(\d+)$", nm)
+            if m:
+                k = int(m.group(1))
+                found = (b["kwargs_lower_lens"]["gamma_pl_list"][k], b["kwargs_upper_lens"]["gamma_pl_list"][k])
         if found is None:
             m = re.match(r"^(mean|sigma|xi)_los_(\d+)$", nm)
             if m:
@@ -322,7 +342,7 @@ def run(ctx, res):
     ncfg = ctx.n(28, 400)
     lines, meta = [], []
     for t in range(ncfg):
-        cfg = gen_config(rng, force=(t < 2))
+        cfg = gen_config(rng, force=(t < 2), mixed=(t in (2, 3)))
         try:
             cl = build(cfg)
         except Exception as e:  # noqa
